@@ -22,6 +22,17 @@ def make_comp(idx, sq, a, b, log, ref):
         flat = seen * seen if sq else seen
         return float(b + np.dot(a_arr, flat[:len(a_arr)])) if len(a_arr) else float(b)
     comp.__name__ = 'comp%d' % idx
+    # single-argument functions of every kind that has a __name__ (the library logs it): plain function, lambda, bound method.
+    # (callable objects and functools.partial objects have no __name__ and are rejected with an untyped AttributeError by the
+    #  library's log line: noted in notes/C16.md, outside "functions" in the strict sense)
+    kind = idx % 3
+    if kind == 1:
+        return lambda arr: comp(arr)
+    if kind == 2:
+        class Holder:
+            def method(self, arr):
+                return comp(arr)
+        return Holder().method
     return comp
 
 
